@@ -135,7 +135,8 @@ def _sqrt_abs(s):
 class NPProxy:
     """stands in for the module global `np`."""
 
-    def __init__(self, lift_all=True, norm_stub=None, load_hook=None, extra=None):
+    def __init__(self, lift_all=True, norm_stub=None, load_hook=None, extra=None, int_as_object=False):
+        self.int_as_object = int_as_object  # integer work arrays become object arrays (symbolic integer shapes)
         self.lift_all = lift_all          # turn float allocations / transcendental calls on concrete floats into exact Syms
         self.norm_stub = norm_stub
         self.load_hook = load_hook
@@ -150,7 +151,7 @@ class NPProxy:
 
     # ---- allocation
     def zeros(self, shape, dtype=None, **kw):
-        if not _is_floaty(dtype):
+        if not _is_floaty(dtype) and not (self.int_as_object and dtype in (int, _np.int64)):
             return _np.zeros(shape, dtype=dtype, **kw)
         _hit("zeros")
         a = _np.empty(shape, dtype=object)
@@ -166,7 +167,7 @@ class NPProxy:
         return a
 
     def empty(self, shape, dtype=None, **kw):
-        if not _is_floaty(dtype):
+        if not _is_floaty(dtype) and not (self.int_as_object and dtype in (int, _np.int64)):
             return _np.empty(shape, dtype=dtype, **kw)
         _hit("empty")
         a = _np.empty(shape, dtype=object)
@@ -197,6 +198,12 @@ class NPProxy:
     def array(self, x, dtype=None, copy=True, **kw):
         if has_sym(x):
             _hit("array")
+            if dtype in (int, _np.int64, "int"):
+                a = _np.array(x, dtype=object)
+                out = _np.empty(a.shape, dtype=int)
+                for idx in _np.ndindex(*a.shape):
+                    out[idx] = int(a[idx])           # symbolic integers are concretised (one path per feasible value)
+                return out
             if dtype is not None and not _is_floaty(dtype) and dtype is not object:
                 raise NotEncodable(f"np.array(symbolic, dtype={dtype})")
             a = _np.array(x, dtype=object, copy=True)
